@@ -38,6 +38,27 @@ def length_equalities(body, pv):
             i = sides.index(at) if at in sides else None
             return any(a[0] == "op" and a[1].startswith("Add") for a in at) or (i is not None and any(a[0] == "op" and a[1].startswith("Add") for a in sides_i[i]) and any(a[0] == "call" and a[1] in body.prog.bodies for a in at))
 
+        def advanced_by_helper(at):
+            """the offset is a local that a crate helper advances through `&mut` (`next_section(&bytes, &mut cursor)` does `*cursor = start + len`)"""
+            for a in at:
+                if a[0] != "mutcall":
+                    continue
+                hb = body.prog.bodies.get(a[1])
+                if hb is None:
+                    continue
+                pvh = Prov(body.prog, inline=False)
+                for _, st in hb.stmts():
+                    if st.k == "assign" and st.place.proj and st.place.proj[0] == "*" and len(st.place.proj) == 1 and 1 <= st.place.local <= len(hb.arg_names) + 1:
+                        src = pvh.of_operand(hb, st.rv["op"]) if st.rv["k"] == "use" else (pvh.of_operand(hb, st.rv["l"]) | pvh.of_operand(hb, st.rv["r"]) | {("op", st.rv["op"])} if st.rv["k"] == "bin" else frozenset())
+                        if any(x[0] == "op" and str(x[1]).startswith("Add") for x in src):
+                            return True
+            return False
+
+        _is_offset0 = is_offset
+
+        def is_offset(at):
+            return _is_offset0(at) or (not is_len(at) and advanced_by_helper(at))
+
         def is_declared(at):
             return any(a[0] == "call" and a[1].endswith("u32_from_bytes") or (a[0] == "call" and "from_be_bytes" in a[1]) for a in at) and not is_offset(at)
         kind = None
